@@ -1919,6 +1919,9 @@ func (c *Cache) additionalAnswer(ctx context.Context, msg *dns.Msg) *dns.Msg {
 				return dnsutil.SetRcode(msg, dns.RcodeServerFailure, false)
 			}
 			cnameReq.SetQuestion(cr.Target, q.Qtype)
+			// SetQuestion asks in class IN; the chase stays in the class
+			// the client asked in, as the wire chase does.
+			cnameReq.Question[0].Qclass = q.Qclass
 		}
 	}
 
